@@ -188,6 +188,74 @@ def run(ctx, ck) -> None:
             ck.expect('J4', name not in c.own, c.node, f'{c.name} keeps default {name}', f'{c.name} overrides {name}: static-argument hashing of landscapes changes', instance=f'{c.name}{name}', nontrivial=False)
 
 
+    # ------------------------------------------------------------------ J5 application reads no ambient state
+    _ambient(ctx, ck, world, table)
+
+
+AMBIENT_CALLS = ('os.getenv', 'os.environ.get', 'time.time', 'time.monotonic', 'time.perf_counter', 'random.random', 'random.randint', 'random.uniform',
+                 'numpy.random.rand', 'numpy.random.randn', 'numpy.random.random', 'numpy.random.uniform', 'numpy.random.normal', 'numpy.random.randint')
+
+
+def _ambient(ctx, ck, world, table) -> None:
+    """J5: nothing reachable from an mv/__call__ reads state that is not part of the operator or the input.
+
+    A jitted function runs such a read once, when it is traced, and bakes the value into the compiled code; eager application
+    re-reads it at every call.  Context variables, environment variables, clocks and global random generators are the
+    ambient sources looked for; the call graph is the over-approximate one of sa/callgraph.py."""
+    from ..callgraph import CallGraph
+    from ..loader import enclosing, qualname
+
+    graph = ctx.cache.get('callgraph')
+    if graph is None or graph.world is not world:
+        graph = CallGraph(world, table)
+    ctxvars = set()
+    for module in world.modules.values():
+        for st in module.tree.body:
+            if isinstance(st, (ast.Assign, ast.AnnAssign)) and isinstance(st.value, ast.Call) and world.qualify(module, st.value.func) == 'contextvars.ContextVar':
+                for tg in (st.targets if isinstance(st, ast.Assign) else [st.target]):
+                    if isinstance(tg, ast.Name):
+                        ctxvars.add(f'{module.name}.{tg.id}')
+    readers: dict[str, tuple[ast.AST, str]] = {}
+    for module in world.modules.values():
+        for node in ast.walk(module.tree):
+            what = None
+            if isinstance(node, ast.Call):
+                q = world.qualify(module, node.func) or ''
+                if isinstance(node.func, ast.Attribute) and node.func.attr == 'get' and (world.qualify(module, node.func.value) or '') in ctxvars:
+                    what = f'the context variable {ast.unparse(node.func.value)}'
+                elif q in AMBIENT_CALLS:
+                    what = q
+            elif isinstance(node, ast.Subscript) and (world.qualify(module, node.value) or '') == 'os.environ':
+                what = 'os.environ'
+            if what:
+                top = enclosing(node, (ast.FunctionDef,))
+                while top is not None and enclosing(top, (ast.FunctionDef,)) is not None:
+                    top = enclosing(top, (ast.FunctionDef,))
+                if top is not None:
+                    readers[qualname(top)] = (node, what)
+    roots = [q for q, fn in graph.functions.items() if fn.name in ('mv', '__call__')]
+    ck.floor('J5', len(roots), 20, 'mv/__call__ roots')
+    ck.floor('J5', len(ctxvars), 1, 'context variables of the package')
+    # object construction captures what it reads (InverseOperator stores the configuration in a static field: C19.K6);
+    # only reads outside constructors happen anew at every application
+    def ctor(q: str) -> bool:
+        return q.rsplit('.', 1)[-1] in ('__init__', '__post_init__', '__new__', '__init_subclass__')
+
+    reach = graph.reachable(roots, skip=ctor)
+    nbad = 0
+    for q, (node, what) in sorted(readers.items()):
+        if ctor(q):
+            continue
+        if q in reach:
+            root = next((r for r in roots if graph.path(r, q, skip=ctor)), None)
+            chain = ' -> '.join(graph.path(root, q, skip=ctor) or []) if root else q
+            nbad += 1
+            ck.bad('J5', node, f'{what} is read while an operator is applied ({chain}): under jit the value seen when the function was first traced is compiled in, '
+                   'eager application re-reads it at every call, so the two differ as soon as the ambient value changes between calls', instance=f'{q.split(".")[-2]}.{q.split(".")[-1]} reads ambient state')
+    if not nbad:
+        ck.ok('J5', graph.functions[roots[0]], f'{len(readers)} readers of ambient state ({sorted(readers)}), none reachable from the {len(roots)} mv/__call__ roots', instance='no ambient reads at application time')
+
+
 def _python_scalar_ann(text: str) -> bool:
     import re
 
